@@ -29,7 +29,8 @@ def abs_enc(d):
 def fixture_funcs():
     from mtfx import funcs
     return {
-        "mod_func": funcs.mod_func, "wrapped": funcs.wrapped.__wrapped__, "gen_func": funcs.gen_func,
+        "mod_func": funcs.mod_func, "wrapped": funcs.wrapped.__wrapped__,
+        "wrapped_twice": funcs.wrapped_twice.__wrapped__.__wrapped__, "gen_func": funcs.gen_func,
         "coro_func": funcs.coro_func, "K.inst": funcs.K.__dict__["inst"], "K.cm": funcs.K.__dict__["cm"].__func__,
         "K.sm": funcs.K.__dict__["sm"].__func__, "K.prop": funcs.K.__dict__["prop"].fget,
         "K.wrapped_meth": funcs.K.__dict__["wrapped_meth"].__wrapped__,
@@ -160,7 +161,7 @@ def gen_jobs(tier, seed, env_text):
     add("inferred from random multisets",
         [{"kind": "vals", "vals": rng.sample(full1 + wide + tiny2, rng.randint(2, 6)), "k": rng.choice(ks)}
          for _ in range(2000 if q else 40000)])
-    fnames = ["mod_func", "wrapped", "gen_func", "coro_func", "K.inst", "K.cm", "K.sm", "K.prop", "K.wrapped_meth",
+    fnames = ["mod_func", "wrapped", "wrapped_twice", "gen_func", "coro_func", "K.inst", "K.cm", "K.sm", "K.prop", "K.wrapped_meth",
               "K.Nested.meth", "K.Nested.nsm", "KSub.inst"]
     tpool = tds[:12] + rng.sample(t1, 40 if q else 400)
     add("call traces: every fixture function x ret/yield in {absent, NoneType, type}",
